@@ -27,6 +27,8 @@ pub struct Case {
     pub connects: Vec<(usize, usize)>,
     /// run a short learn() on the same network object first and check the gradients at the trained weights
     pub after_learn: bool,
+    /// a frozen output gradient of magnitude ~1e-7 is back-propagated (scale-free check of the backward pass)
+    pub near_optimum: bool,
 }
 
 pub fn conv_nonunit(l: &LayerSpec) -> bool {
@@ -50,6 +52,19 @@ fn decode(tape: &[u32], tier: Tier) -> Case {
     } else {
         gen_net(&mut t, &o)
     };
+    // one network in ten contains wide dense layers (both sides above 32, not multiples of 32)
+    if !isolation && t.chance(1, 10) {
+        let w1 = t.usize(33, 70);
+        let w2 = t.usize(33, 70);
+        spec = NetSpec {
+            input: vec![t.usize(2, 6)],
+            layers: vec![
+                LayerSpec::Dense { out: w1, act: gen_act(&mut t, &o), bias: t.bool(), dropout: None },
+                LayerSpec::Dense { out: w2, act: gen_act(&mut t, &o), bias: t.bool(), dropout: None },
+                LayerSpec::Dense { out: t.usize(1, 4), act: gen_act(&mut t, &o), bias: t.bool(), dropout: None },
+            ],
+        };
+    }
     let softmax_ce = !isolation && t.chance(1, 6);
     let mut obj = rm::OBJS[t.pick(7)];
     if isolation {
@@ -84,7 +99,11 @@ fn decode(tape: &[u32], tier: Tier) -> Case {
         }
         spec.layers.iter_mut().for_each(smooth);
     }
-    Case { spec, obj, softmax_ce, wseed: t.raw(), wmode, xseed: t.raw(), tseed: t.raw(), learn_step: t.chance(1, 3), isolation, connects: vec![], after_learn: !isolation && t.chance(1, 6) }
+    Case { spec, obj, softmax_ce, wseed: t.raw(), wmode, xseed: t.raw(), tseed: t.raw(), learn_step: t.chance(1, 3), isolation, connects: vec![], after_learn: !isolation && t.chance(1, 6), near_optimum: t.chance(1, 8) }
+}
+
+fn g0_for_scale_max(v: &[f64]) -> f64 {
+    v.iter().fold(0.0f64, |a, x| a.max(x.abs()))
 }
 
 #[derive(Clone, Copy, PartialEq)]
@@ -283,10 +302,29 @@ pub fn check(case: &Case, ev: &mut CaseEv, tier: Tier) -> CheckResult {
         }
     }
     let tt = tens::build(&out_dims, &target);
-    let mode = if case.isolation { SMode::Functional } else { smode(case.obj, case.softmax_ce) };
+    // `near_optimum`: a frozen output gradient of magnitude ~1e-7 is back-propagated (what training close to
+    // an optimum hands to the backward pass); the compared scalar is the linear functional <g0, f(x; theta)>
+    let tiny = case.near_optimum && !case.softmax_ce;
+    let mode = if case.isolation || tiny { SMode::Functional } else { smode(case.obj, case.softmax_ce) };
     let g0d = rm::loss_grad(case.obj, &out_ref, &td);
-    let g0: Vec<f32> = g0d.iter().map(|v| *v as f32).collect();
+    let g0: Vec<f32> = if tiny { payload(case.tseed ^ 0x71, 1, n_out, 1e-7) } else { g0d.iter().map(|v| *v as f32).collect() };
     let g0d: Vec<f64> = g0.iter().map(|v| *v as f64).collect();
+    // absolute part of the tolerances: single-precision noise of sums whose terms are of the size of the
+    // back-propagated output gradient times O(1) activations (cancellation makes it absolute, not relative)
+    let g0_for_scale: Vec<f64> = if mode == SMode::Functional { g0d.clone() } else { rm::loss_grad(case.obj, &out_ref, &td) };
+    // the objective's own gradient is computed by the library from single-precision outputs: where it
+    // cancels (p close to t) its relative error is large; measure that conditioning on the reference
+    let g0_cond: f64 = if mode == SMode::Loss {
+        let up: Vec<f64> = out_ref.iter().map(|p| p * (1.0 + 2.4e-7) + 1e-38).collect();
+        let dn: Vec<f64> = out_ref.iter().map(|p| p * (1.0 - 2.4e-7) - 1e-38).collect();
+        let (gu, gd) = (rm::loss_grad(case.obj, &up, &td), rm::loss_grad(case.obj, &dn, &td));
+        let dmax = gu.iter().zip(gd.iter()).fold(0.0f64, |a, (x, y)| a.max((x - y).abs()));
+        let gmax0 = g0_for_scale_max(&rm::loss_grad(case.obj, &out_ref, &td));
+        if gmax0 > 0.0 { dmax / gmax0 } else { 0.0 }
+    } else {
+        0.0
+    };
+    let noise = 2e-6 * g0_for_scale.iter().fold(0.0f64, |a, v| a.max(v.abs())) * (1.0 + out_ref.iter().fold(0.0f64, |a, v| a.max(v.abs()))) + 1e-30;
 
     // library forward and gradients
     let objf = objective::Function::create(lib_obj(case.obj), None);
@@ -352,7 +390,7 @@ pub fn check(case: &Case, ev: &mut CaseEv, tier: Tier) -> CheckResult {
             refs.push(d);
         }
         for i in 0..n_in {
-            let tol = 2e-4 * refs[i].abs() + 1e-4 * gref_inf.max(ginf) + 1e-6;
+            let tol = (2e-4 + 4.0 * g0_cond) * refs[i].abs() + (1e-4 + 4.0 * g0_cond) * gref_inf.max(ginf) + noise;
             let err = (igf[i] as f64 - refs[i]).abs();
             worst = worst.max(err / tol);
             if err > tol {
@@ -368,7 +406,8 @@ pub fn check(case: &Case, ev: &mut CaseEv, tier: Tier) -> CheckResult {
         ensure!(refs_p.len() == ptensors.len(), "harness: {} parameter tensors but {} gradient tensors", refs_p.len(), ptensors.len());
         refs_p.iter().zip(ptensors.into_iter()).map(|((r, _), t)| (*r, t)).collect()
     } else {
-        match lib_gradients(&net, &objf, &xt, &tt) {
+        let r = if tiny { lib_gradients_g0(&net, &xt, &tens::build(&out_dims, &g0)).map(|g| (0.0f32, g)) } else { lib_gradients(&net, &objf, &xt, &tt) };
+        match r {
             Ok((_, g)) => g,
             Err(p) => return Err(mkfail(format!("backward pass panicked on a valid network: {} ({:?})", p, spec))),
         }
@@ -463,7 +502,8 @@ pub fn check(case: &Case, ev: &mut CaseEv, tier: Tier) -> CheckResult {
     let mut worst = 0.0f64;
     for (k, (pi, e)) in elems.iter().enumerate() {
         let g = lib_flat[*pi][*e] as f64;
-        let tol = if p1 { 2e-4 * refs[k].abs() + 1e-4 * gref_inf.max(ginf) + 1e-6 } else { 2e-3 * (gref_inf.max(ginf) + base_lib_s.abs()) + 1e-5 };
+        // scale-free in the output gradient: relative terms plus 2e-6 * max|g0| * (1 + max|output|)
+        let tol = if p1 { (2e-4 + 4.0 * g0_cond) * refs[k].abs() + (1e-4 + 4.0 * g0_cond) * gref_inf.max(ginf) + noise } else { 2e-3 * (gref_inf.max(ginf) + base_lib_s.abs()) + 1e-5 };
         let err = (g - refs[k]).abs();
         worst = worst.max(err / tol);
         if !(err <= tol) {
@@ -478,7 +518,7 @@ pub fn check(case: &Case, ev: &mut CaseEv, tier: Tier) -> CheckResult {
     ev.units = elems.len() as u64;
 
     // --- end to end through the public API: one plain-SGD learn() step on this sample
-    if case.learn_step && !case.isolation {
+    if case.learn_step && !case.isolation && !tiny {
         let lr = 0.125f32;
         let mut n3 = build_c(spec).map_err(Fail::new)?;
         apply_params(&mut n3, &ps);
@@ -526,7 +566,10 @@ pub fn check(case: &Case, ev: &mut CaseEv, tier: Tier) -> CheckResult {
     });
     let multi_ch = spec.input.len() == 3 && spec.input[0] >= 2;
     let has_fb = spec.layers.iter().any(|l| matches!(l, LayerSpec::Feedback { .. }));
-    ev.nontrivial = ginf.max(gref_inf) > 1e-3 && (depth >= 2 || nondefault || multi_ch || has_fb);
+    if tiny {
+        ev.class("tiny frozen output gradient (~1e-7)");
+    }
+    ev.nontrivial = (ginf.max(gref_inf) > 1e-3 || tiny) && (depth >= 2 || nondefault || multi_ch || has_fb);
     ev.set_sig(&(spec, case.obj, case.softmax_ce, case.isolation));
     Ok(())
 }
@@ -549,7 +592,7 @@ impl Prop for C01 {
     fn assumptions(&self) -> Vec<String> {
         vec![
             "for MAE, RMSE and cross-entropy without soft-max the compared scalar is <g0, f(x; theta)> with g0 the objective's documented gradient frozen at the base point (back-propagation = transposed Jacobian); for AE, MSE, BCE, KL and soft-max + CE it is the loss itself".into(),
-            "tolerance P1: 2e-4 |g_ref| + 1e-4 |g|max + 1e-6; P2: 2e-3 (|g|max + |S|)".into(),
+            "tolerance P1: 2e-4 |g_ref| + 1e-4 |g|max + 2e-6 max|g0| (1 + max|output|), g0 = gradient handed to the last layer (so the check is scale-free in g0), relative terms widened by 4x the measured conditioning of the objective's own gradient (p close to t); P2: 2e-3 (|g|max + |S|)".into(),
             "gradients inside feedback blocks are compared per unrolled copy (the library updates copies independently and re-couples them afterwards)".into(),
         ]
     }
